@@ -169,3 +169,28 @@ Proof.
     as (L & T & V). split; [exact L|]. split; [exact T|]. intros k Hk. destruct (V k Hk) as (L1 & R1 & _ & W).
   split; [exact L1|]. split; [exact R1|]. intros P Q1 Q2 Q3. apply (W P Q1 Q2 Q3).
 Qed.
+
+(* error_is_full (C06): the exact phase of a fresh ciphertext is plaintext + e on limb ceil(nk/b)-1 with coefficient 1 *)
+Lemma sk_error_is_full :
+  forall (wb b pb R : Z) (n size psize rank : nat) (nk S E M : Z),
+  normalize_value_ok (fun rb ab => normalize 64 rb ab 0) (2 ^ 62) R ->
+  normalize_value_ok (bnorm wb) (2 ^ (wb - 2)) R ->
+  2 <= wb -> 1 <= b <= R -> 1 <= pb <= R -> 0 <= S ->
+  forall (pt : ccol) (sk : list poly) (us : nat -> Z) (e : poly) (ct : list ccol) (d : ccol),
+  length sk = rank ->
+  Forall (fun s => norm1 s <= S) sk ->
+  (forall k, (k < n)%nat -> Z.abs (nthZ e k) <= E) ->
+  (forall k, (k < n)%nat -> bnd M (coef pt k)) ->
+  zn rank * 2 ^ (b - 1) + E + M <= 2 ^ 62 ->
+  zn rank * (S * 2 ^ (b - 1)) + 2 ^ (b - 1) <= 2 ^ (wb - 2) ->
+  S * 2 ^ (b - 1) <= 2 ^ (wb - 2) ->
+  enc_sk wb b n size rank nk (Some (pt, O)) sk us e = Some ct ->
+  dec_glwe wb b pb n size psize sk ct = Some d ->
+  forall k, (k < n)%nat -> forall P, zn size * b <= P -> zn psize * pb <= P -> 1 <= P ->
+    exists q, lval P b size (coef (hd [] ct) k) + lvsum P b size (prods_at n size sk (tl ct) k)
+              = lval P b size (coef pt k) + nthZ e k * 2 ^ (P - (zn (target_limb nk b) + 1) * b) + q * 2 ^ P.
+Proof.
+  intros wb b pb R n size psize rank nk S E M H1 H2 H3 H4 H5 H6 pt sk us e ct d A1 A2 A3 A4 A5 A6 A7 A8 A9 k Hk P Q1 Q2 Q3.
+  destruct (sk_roundtrip wb b pb R n size psize rank nk H1 H2 H3 H4 H5 S E M H6 pt sk us e ct d A1 A2 A3 A4 A5 A6 A7 A8 A9)
+    as (_ & _ & V). destruct (V k Hk) as (_ & _ & _ & W). destruct (W P Q1 Q2 Q3) as [X _]. exact X.
+Qed.
